@@ -216,7 +216,10 @@ static void ProcessFile(char const* FileName, LongWord Offset) {
             }
         }
 
-        else if (InpHeader == FileHeaderDataRec) {
+        /* (a record 'with symbols' is absolute data followed by a record of export
+           entries, which is skipped like every record not handled here) */
+
+        else if ((InpHeader == FileHeaderDataRec) || (InpHeader == FileHeaderRDataRec)) {
             Gran = InpGran;
 
             if ((ActFormat = DestFormat) == eHexFormatDefault) {
@@ -807,7 +810,7 @@ static void MeasureFile(char const* FileName, LongWord Offset) {
     do {
         ReadRecordHeader(&Header, &InpCPU, &InpSegment, &Gran, FileName, f);
 
-        if (Header == FileHeaderDataRec) {
+        if ((Header == FileHeaderDataRec) || (Header == FileHeaderRDataRec)) {
             if (!Read4(f, &Adr)) {
                 ChkIO(FileName);
             }
